@@ -430,6 +430,65 @@ def check_guards_and_scalings(fx, R, cname, f, tag):
             else:
                 R.holds('V11', inst + ':covariance-scaling', 'rescaled by a quantity that is positive for every input', fx.rel(node['loc']), 'E-ALG')
     visit(f.get('body'), [])
+    # V12: `X.noalias() (+)= ... A * b ...` promises Eigen that X does not overlap the operands of the product; it then evaluates the product straight into X.  When X and an operand are views of the SAME
+    # matrix whose regions (constant block arguments of this instantiation) intersect, the product reads coefficients the statement has already overwritten.
+    def view_of(n):
+        n = strip_casts(n)
+        region = None
+        chain = []
+        for _ in range(6):
+            if n.get('k') == 'MCall' and n.get('m') in ('noalias', 'array', 'matrix', 'eval', 'derived', 'transpose'):
+                chain.append(n['m'])
+                n = strip_casts(n['obj'])
+            elif n.get('k') == 'MCall' and n.get('m') in ('block', 'topLeftCorner', 'col', 'row', 'head', 'segment') and region is None:
+                cv = [const_value(a_) for a_ in n.get('args', [])]
+                if n['m'] == 'block' and len(cv) == 4 and None not in cv:
+                    region = (int(cv[0]), int(cv[1]), int(cv[2]), int(cv[3]))
+                elif n['m'] == 'col' and len(cv) == 1 and cv[0] is not None:
+                    region = (0, int(cv[0]), 10 ** 6, 1)
+                elif n['m'] == 'row' and len(cv) == 1 and cv[0] is not None:
+                    region = (int(cv[0]), 0, 1, 10 ** 6)
+                elif n['m'] == 'topLeftCorner' and len(cv) == 2 and None not in cv:
+                    region = (0, 0, int(cv[0]), int(cv[1]))
+                else:
+                    region = 'unknown'
+                n = strip_casts(n['obj'])
+            else:
+                break
+        if n.get('k') in ('Ref', 'Member'):
+            return (n.get('id') or n.get('name'), region if region is not None else (0, 0, 10 ** 6, 10 ** 6), 'noalias' in chain)
+        return None
+
+    def overlap(a, b):
+        if a == 'unknown' or b == 'unknown':
+            return None
+        return a[0] < b[0] + b[2] and b[0] < a[0] + a[2] and a[1] < b[1] + b[3] and b[1] < a[1] + a[3]
+    for y in walk(f.get('body')):
+        if not ((y.get('k') == 'Bin' and y.get('op') in ('=', '+=', '-=')) or (y.get('k') == 'Op' and y.get('op') in ('=', '+=', '-=') and len(y.get('args', [])) == 2)):
+            continue
+        l_, r_ = (y['l'], y['r']) if y.get('k') == 'Bin' else (y['args'][0], y['args'][1])
+        lv = view_of(l_)
+        if lv is None or not lv[2]:
+            continue
+        hit = None
+        for z in walk(r_):
+            if isinstance(z, dict) and ((z.get('k') == 'Bin' and z.get('op') == '*') or (z.get('k') == 'Op' and z.get('op') == '*' and len(z.get('args', [])) == 2)):
+                for opnd in ((z['l'], z['r']) if z.get('k') == 'Bin' else z['args']):
+                    ov = view_of(opnd)
+                    if ov is not None and ov[0] == lv[0]:
+                        o_ = overlap(lv[1], ov[1])
+                        if o_ is True:
+                            hit = ('violated', opnd)
+                        elif o_ is None and hit is None:
+                            hit = ('undecided', opnd)
+        if hit and hit[0] == 'violated':
+            reported = True
+            R.violated('V12', inst + ':noalias-overlap', '`%s` is marked noalias(), but the product on its right-hand side reads `%s`, a view of the same matrix whose region overlaps the destination for this point type '
+                       '(destination %s, operand %s as row, column, rows, columns): Eigen then evaluates the product straight into the destination, so it reads coefficients this very statement has already changed - '
+                       'for the homogeneous point types the translation column comes out as -R*sourceMean instead of targetMean - R*sourceMean [%s]' % (
+                           pp(l_)[:70], pp(hit[1])[:70], lv[1], view_of(hit[1])[1], cname), fx.rel(y.get('loc') or f['loc']), 'E-STATE')
+        elif hit:
+            R.undecided('V12', inst + ':noalias-overlap', '`%s` is marked noalias() and a product operand is a view of the same matrix; the regions are not constant' % pp(l_)[:70])
     return reported
 
 
@@ -451,7 +510,27 @@ def check_estimate(fx, R, cname, f, tag, v9=None):
     if len(rot) != 1 or D is None:
         um = [e for e in ev if contains(e[1], 'Eigen::umeyama')]
         if um:
-            R.holds('V1', inst, 'delegates to Eigen::umeyama (handles reflections)', fx.rel(f['loc']), 'E-STATE')
+            # Eigen::umeyama(src, dst, with_scaling = true): by default it returns the SIMILARITY c R | t; the rigid motion needs with_scaling = false
+            calls_ = [y for y in walk(f['body']) if y.get('k') == 'Call' and (y.get('fn') or '').startswith('Eigen::umeyama')]
+            rigid = None
+            for c_ in calls_:
+                a_ = c_.get('args', [])
+                third = a_[2] if len(a_) >= 3 else None
+                is_default = third is None or third.get('k') == 'DefaultArg'
+                cv_ = const_value(third) if third is not None else None
+                if third is not None and third.get('k') == 'DefaultArg':
+                    cv_ = const_value(third.get('e')) if third.get('e') is not None else True
+                rigid = (cv_ in (False, 0)) if not is_default or cv_ is not None else False
+                if is_default and cv_ is None:
+                    rigid = False
+            if rigid:
+                R.holds('V1', inst, 'delegates to Eigen::umeyama with scaling disabled (handles reflections)', fx.rel(f['loc']), 'E-STATE')
+            elif rigid is False:
+                R.violated('V1', inst + ':similarity', 'the motion is delegated to Eigen::umeyama(source, target) with its third parameter left at the default, with_scaling = true: that function then returns the '
+                           'similarity c*R | t that minimises the squared error, with a scale factor c fitted to the data.  For exactly rigid data c is 1 to rounding, but for noisy correspondences c != 1: the linear '
+                           'part is not orthonormal (det = c^DIM) and the result is not the least-squares optimal RIGID motion [%s]' % cname, fx.rel(f['loc']), 'E-STATE')
+            else:
+                R.undecided('V1', inst, 'delegates to Eigen::umeyama; the value of with_scaling is not readable')
             return None
         R.undecided('V1', inst, 'rotation-block assignment `H.block(0,0,D,D) = ...` not found exactly once')
         return None
